@@ -2,7 +2,7 @@
     audited by Print Assumptions in the generated Audit file. *)
 From V.Lib Require Import Base MachInt.
 From V.Gen Require Import C12Consts.
-From V.C12 Require Import Model Spec ProofsPct ProofsB64 ProofsAmount ProofsRender ProofsAccept ProofsTotal ProofsCtors ProofsSurface ProofsAmountSpec Bridge.
+From V.C12 Require Import Model Spec ProofsPct ProofsB64 ProofsAmount ProofsRender ProofsAccept ProofsTotal ProofsCtors ProofsSurface ProofsAmountSpec Bridge ProofsC10.
 (* the case-evaluation files belong to the closure that every run rebuilds *)
 From V.C12 Require Import Lit Corr Wf.
 Local Open Scope Z_scope.
@@ -210,6 +210,50 @@ Theorem C12_from_uri_total :
   forall (addr : Type) (addr_dec : bytes -> option addr) (can_memo t_only : addr -> bool) (uri : bytes),
     from_uri addr addr_dec can_memo t_only uri <> Panic.
 Proof. exact from_uri_total. Qed.
+
+(** ** The address oracle discharged with the C10 model of zcash_address's string codec.
+    Concrete instance: addresses are C10 address values ([M10.addr]), [c_dec] = C10 [parse_address] after
+    UTF-8 decoding of the byte string to code points, [c_enc] = C10 [encode_address] (ASCII).  [H], [G] are
+    the F4Jumble hash functions (any byte-valued functions, as in C10).  [can_memo] / [t_only] stay
+    arbitrary.  [caddr_ok a] = well-formed (ZIP 316 for unified addresses) /\ network normalised
+    ([norm_addr a = a]: a Regtest Sprout/P2PKH/P2SH value is written as Test, whose strings it shares)
+    /\ it encodes ([encode_address a = Ok s]; fails only for oversized unified addresses, C10's known
+    finding) /\ for the Base58Check kinds the string is not by accident a valid Bech32(m) string. *)
+Theorem C12_concrete_addr_ok :
+  forall H G, (forall i l x, V.Lib.Hex.is_bytes (H i l x) = true) -> (forall i j x, V.Lib.Hex.is_bytes (G i j x) = true) ->
+  forall a, caddr_ok H G a -> addr_ok M10.addr (c_dec H G) (c_enc H G) a.
+Proof. exact caddr_addr_ok. Qed.
+(** Every address the concrete decoder returns satisfies the oracle hypothesis - no guard. *)
+Theorem C12_concrete_decoded_addr_ok :
+  forall H G, (forall i l x, V.Lib.Hex.is_bytes (H i l x) = true) -> (forall i j x, V.Lib.Hex.is_bytes (G i j x) = true) ->
+  forall a, decoded M10.addr (c_dec H G) a -> addr_ok M10.addr (c_dec H G) (c_enc H G) a.
+Proof. exact decoded_addr_ok. Qed.
+Theorem C12_request_roundtrip_concrete :
+  forall H G, (forall i l x, V.Lib.Hex.is_bytes (H i l x) = true) -> (forall i j x, V.Lib.Hex.is_bytes (G i j x) = true) ->
+  forall (can_memo t_only : M10.addr -> bool) (r : request M10.addr),
+    wf_requestb M10.addr r = true /\ validb M10.addr can_memo t_only r = true ->
+    Forall (fun ip => caddr_ok H G (p_addr (snd ip))) r ->
+    from_uri M10.addr (c_dec H G) can_memo t_only (to_uri M10.addr (c_enc H G) r) = Ok r.
+Proof. exact request_roundtrip_concrete. Qed.
+(** No oracle hypothesis and no guard at all: an accepted URI re-renders to a URI that parses to the same request. *)
+Theorem C12_accepted_rerender_concrete :
+  forall H G, (forall i l x, V.Lib.Hex.is_bytes (H i l x) = true) -> (forall i j x, V.Lib.Hex.is_bytes (G i j x) = true) ->
+  forall (can_memo t_only : M10.addr -> bool) (uri : bytes) (r : request M10.addr),
+    from_uri M10.addr (c_dec H G) can_memo t_only uri = Ok r ->
+    from_uri M10.addr (c_dec H G) can_memo t_only (to_uri M10.addr (c_enc H G) r) = Ok r.
+Proof. exact accepted_rerender_concrete. Qed.
+Theorem C12_request_new_ok_concrete :
+  forall H G, (forall i l x, V.Lib.Hex.is_bytes (H i l x) = true) -> (forall i j x, V.Lib.Hex.is_bytes (G i j x) = true) ->
+  forall (can_memo t_only : M10.addr -> bool) ps (r : request M10.addr),
+    forallb (wf_paymentb M10.addr) ps = true -> Forall (fun p => caddr_ok H G (p_addr p)) ps ->
+    (request_new M10.addr (c_dec H G) (c_enc H G) can_memo t_only ps = Ok r <->
+     r = enumerate_from M10.addr 0 ps /\ Z.of_nat (length ps) <= 9999 /\ validb M10.addr can_memo t_only r = true).
+Proof. exact request_new_ok_concrete. Qed.
+(** the guards are satisfiable (a Sapling and a P2PKH value) *)
+Theorem C12_concrete_nonvacuous :
+  caddr_ok H0 G0 (M10.ARaw M10.Main M10.Sapling (repeat 0%N 43)) /\
+  caddr_ok H0 G0 (M10.ARaw M10.Main M10.P2pkh (repeat 0%N 20)).
+Proof. exact caddr_ok_nonvacuous. Qed.
 
 (** ** Bridge: on every well-formed case (table entries satisfy the oracle hypotheses, requests satisfy the
     type invariants), agreement of the implementation with the model implies the property on the
